@@ -159,3 +159,36 @@ func (p *Prog) Alternatives(info *types.Info, e ast.Expr, depth int) []ast.Expr 
 	}
 	return out
 }
+
+// OriginOnPath resolves an identifier used at event index idx of path p to the expression it was
+// most recently assigned from on that path (following chains of plain copies); other expressions
+// are returned unchanged.
+func OriginOnPath(info *types.Info, p *Path, idx int, e ast.Expr) ast.Expr {
+	for depth := 0; depth < 4; depth++ {
+		id, ok := ast.Unparen(e).(*ast.Ident)
+		if !ok {
+			return e
+		}
+		obj := info.ObjectOf(id)
+		if obj == nil {
+			return e
+		}
+		found := false
+		for j := idx - 1; j >= 0 && !found; j-- {
+			a := p.Ev[j]
+			if a.Kind != EvAssign || len(a.Lhs) != len(a.Rhs) {
+				continue
+			}
+			for k, l := range a.Lhs {
+				if ObjOf(info, l) == obj {
+					e, idx, found = a.Rhs[k], j, true
+					break
+				}
+			}
+		}
+		if !found {
+			return e
+		}
+	}
+	return e
+}
